@@ -14,7 +14,15 @@ PoolCtx == {[mode |-> m, ctx |-> c, src |-> NoSrc] : m \in {"bp", "comb"}, c \in
 \* small mixed pool for simulation of 3-4 block specs
 SmallSrcs == {NoSrc, [mode |-> "bp", cols |-> [k \in {"e"} |-> 2], select |-> {"*"}, rename |-> <<>>],
               [mode |-> "bp", cols |-> [k \in {"e"} |-> 2], select |-> {"*"}, rename |-> [k \in {"e"} |-> "c"]],
+              [mode |-> "bp", cols |-> [k \in {"e"} |-> 2], select |-> {"*"}, rename |-> [k \in {"e"} |-> "b"]],
               [mode |-> "comb", cols |-> [k \in {"d", "e"} |-> IF k = "d" THEN 2 ELSE 3], select |-> {"*"}, rename |-> [k \in {"e"} |-> "a"]]}
+\* two blocks reading the SAME file: every pair of (select, rename) variants over one column set --
+\* sources that agree on path / format / mode / select and differ only in the rename TARGET included
+E2 == [k \in {"d", "e"} |-> 2]
+SameFileSrcs == {[mode |-> "bp", cols |-> E2, select |-> sel, rename |-> rn] :
+                    sel \in {{"*"}, {"e"}},
+                    rn \in {<<>>, [k \in {"e"} |-> "c"], [k \in {"e"} |-> "a"], [k \in {"d"} |-> "c"]}} \cup {NoSrc}
+PoolSrc2 == {[mode |-> "bp", ctx |-> c, src |-> s] : c \in {<<>>, [k \in {"b"} |-> 2]}, s \in SameFileSrcs}
 PoolMix == {[mode |-> m, ctx |-> c, src |-> s] : m \in {"bp", "comb"},
                c \in UNION {[S -> {1, 2, 3}] : S \in {{}, {"a"}, {"b"}, {"c"}, {"a", "b"}, {"d"}}}, s \in SmallSrcs}
 =============================================================================
